@@ -1,6 +1,7 @@
 import DymVerif.Driver.Common
 import DymVerif.Driver.Core
 import DymVerif.Model.LC
+import DymVerif.Model.LCTx
 namespace DymVerif.Driver.C09
 open DymVerif DymVerif.LC DymVerif.Driver
 open DymVerif.Driver.Core (kv kvN idx! joinWith b2s)
@@ -125,6 +126,42 @@ def step (d : DState) (f : List String) : DState × String :=
       let d' := { d with st := s' }
       (d', render d' (resName isUpd r))
 
-def drv : Drv := { σ := DState, init := default, step := step }
+/-- the sub-op token lists of a `tx` line (separator `;;`) -/
+def splitSubs (f : List String) : List (List String) :=
+  (f.foldr (fun t acc => if t == ";;" then [] :: acc else
+    match acc with
+    | [] => [[t]]
+    | x :: xs => (t :: x) :: xs) [[]]).filter (fun l => !l.isEmpty)
+
+/-- the sub-ops that can travel in a `tx` line (harness/c09_tx.go) -/
+def txSub (d : DState) (f : List String) : Option Op :=
+  match f with
+  | "update" :: _ => parseOp d f
+  | "lc_update" :: _ => parseOp d f
+  | "lc_misb" :: _ => parseOp d f
+  | "lc_setcanon" :: _ => parseOp d f
+  | "lc_chanack" :: _ => if kv f "ibc" = "0" then parseOp d f else none
+  | _ => none
+
+def parseTx (d : DState) (rest : List String) : Option (List Op) :=
+  match splitSubs rest with
+  | [] => none
+  | subs => subs.mapM (txSub d)
+
+/-- `tx …`: several messages in one transaction (`Model/LCTx.lean`) -/
+def stepTx (d : DState) (rest : List String) : DState × String :=
+  match parseTx d rest with
+  | none => (d, render d "bad-op")
+  | some ms =>
+    let (s', r) := LC.txStep d.st ms
+    let d' := { d with st := s' }
+    (d', render d' (resName true r))
+
+def stepAll (d : DState) (f : List String) : DState × String :=
+  match f with
+  | "tx" :: rest => stepTx d rest
+  | _ => step d f
+
+def drv : Drv := { σ := DState, init := default, step := stepAll }
 
 end DymVerif.Driver.C09
